@@ -62,10 +62,13 @@ static bool lht_keq(const void *a, const void *b) {
     if (b == NULL) return false;
     return ((const struct lht_key *)a)->id == ((const struct lht_key *)b)->id;
 }
-/* one of the two records of identity `id` */
-static const void *lht_key_of(size_t id) {
-    return nondet_bool() ? (const void *)&g_kp[2 * id] : (const void *)&g_kp[2 * id + 1];
-}
+/* the two records of identity `id`: LHT_KEY(id) is the one a slot stores, LHT_KEY_TWIN(id) is equal by comparison but a
+ * different pointer (by symmetry it does not matter which of the two is stored).  Key pointers are kept concrete so that
+ * symbolic execution resolves the lookups of the hash view; a unit that wants "same pointer or twin" makes the call in
+ * both branches of a nondeterministic choice (LHT_EITHER). */
+#define LHT_KEY(id) ((const void *)&g_kp[2 * (id)])
+#define LHT_KEY_TWIN(id) ((const void *)&g_kp[2 * (id) + 1])
+#define LHT_EITHER(var, a, b, stmt) do { if (nondet_bool()) { var = (a); stmt; } else { var = (b); stmt; } } while (0)
 static void *lht_any_value(void) {
     size_t i = nondet_size_t();
     __CPROVER_assume(i <= LHT_NV);
@@ -115,7 +118,9 @@ struct lht_model g_m;
 
 struct aws_linked_hash_table *g_T; /* the table under proof (for the caches: &cache->table) */
 struct aws_allocator g_lht_allocator;
-struct aws_linked_list_node g_hid[2 * LHT_S]; /* stand-ins for the hidden neighbours at gaps: g_hid[2i] follows slot i, g_hid[2i+1] precedes the next present slot; never written (in no assigns clause) */
+/* stand-ins for the hidden neighbours at gaps: g_hidn[i] follows slot i (when gap[i]), g_hidp[i] precedes slot i (when the
+ * present slot before it has a gap); never written (they are in no assigns clause) */
+struct aws_linked_list_node g_hidn[LHT_S], g_hidp[LHT_S];
 struct aws_linked_hash_table_node *g_M;       /* the node of the entry matching the operation key (NULL: none) */
 struct aws_linked_hash_table_node *g_X;       /* a second node an operation may unlink (cache eviction); NULL: none */
 
@@ -142,7 +147,10 @@ static bool lht_user_eq(const void *a, const void *b) {
 void *aws_mem_calloc(struct aws_allocator *allocator, size_t num, size_t size) {
     __CPROVER_assert(allocator == &g_lht_allocator, "allocation goes to the table's allocator");
     __CPROVER_assert(num > 0 && size > 0, "allocation request is not empty");
-    void *p = calloc(num, size);
+    /* the table allocates nodes only: a typed block keeps the node's fields as fields in the verifier's memory model */
+    __CPROVER_assert(num == 1 && size == sizeof(struct aws_linked_hash_table_node) || size == sizeof(struct aws_cache),
+                     "model: allocation is one list node (or one cache)");
+    void *p = size == sizeof(struct aws_cache) ? calloc(1, sizeof(struct aws_cache)) : calloc(1, sizeof(struct aws_linked_hash_table_node));
     __CPROVER_assume(p != NULL);
     g_m.calloc_calls++;
     g_m.calloc_last = p;
@@ -394,7 +402,7 @@ static void lht_build(struct aws_linked_hash_table *T, unsigned must, unsigned m
         }
         g_a.present[i] = pr;
         g_a.node[i] = nd;
-        g_a.key[i] = (i == null_slot) ? NULL : lht_key_of(i);
+        g_a.key[i] = (i == null_slot) ? NULL : LHT_KEY(i);
         g_a.val[i] = lht_any_value();
         g_a.cell[i] = i;
         g_a.gap[i] = false;
@@ -422,8 +430,8 @@ static void lht_build(struct aws_linked_hash_table *T, unsigned must, unsigned m
             nd->table = T;
             nd->key = g_a.key[i];
             nd->value = g_a.val[i];
-            nd->node.prev = p == LHT_NONE ? &T->list.head : (g_a.gap[p] ? &g_hid[2 * p + 1] : &g_a.node[p]->node);
-            nd->node.next = q == LHT_NONE ? &T->list.tail : (g_a.gap[i] ? &g_hid[2 * i] : &g_a.node[q]->node);
+            nd->node.prev = p == LHT_NONE ? &T->list.head : (g_a.gap[p] ? &g_hidp[i] : &g_a.node[p]->node);
+            nd->node.next = q == LHT_NONE ? &T->list.tail : (g_a.gap[i] ? &g_hidn[i] : &g_a.node[q]->node);
         }
     }
     /* hash view */
@@ -464,9 +472,9 @@ static void lht_check_list(const struct lht_abs *e) {
             const struct aws_linked_hash_table_node *nd = e->node[i];
             size_t p = lht_abs_pred(e, i), q = lht_abs_succ(e, i);
             const struct aws_linked_list_node *xp =
-                p == LHT_NONE ? &T->list.head : (e->gap[p] ? &g_hid[2 * p + 1] : &e->node[p]->node);
+                p == LHT_NONE ? &T->list.head : (e->gap[p] ? &g_hidp[i] : &e->node[p]->node);
             const struct aws_linked_list_node *xn =
-                q == LHT_NONE ? &T->list.tail : (e->gap[i] ? &g_hid[2 * i] : &e->node[q]->node);
+                q == LHT_NONE ? &T->list.tail : (e->gap[i] ? &g_hidn[i] : &e->node[q]->node);
             links = links && nd->node.prev == xp && nd->node.next == xn;
             fields = fields && nd->table == T && nd->key == e->key[i] && nd->value == e->val[i];
         }
